@@ -425,6 +425,8 @@ var probes = []probeProg{
 	{"builtin-names-in-use", "[Int.keys.len > 0, [1].len, \"ab\".len, assertEq(1, 1), Kernel.keys.len > 0, true, nil, Err.new(\"e\").type == Err].p\nassert(false)\n", ""},
 	{"rich-syntax", richSyntax, ""},
 	{"rich-syntax", richSyntax, ""},
+	// operators overridden on children of the scalar prototypes (the histories use the built-in ones)
+	{"operator-override", "Money := Int.bear({'+: m{|o| \"money sum\"}, '*: m{|o| \"money times\"}, '==: m{|o| \"money eq\"}})\n[Money.new(3) + Money.new(4), Money.new(3) * 2, Money.new(3) == 3, Money.new(3) - 1].p\nLoud := Str.bear({'+: m{|o| \"loud\"}})\n[Loud.new(\"a\") + \"b\", \"a\" + \"b\"].p\nHalf := Float.bear({'/: m{|o| \"half\"}})\n[Half.new(1.0) / 2.0, 1.0 / 2.0, -(Money.new(2)), !Money.new(0)].p\n", ""},
 	// argument variables beyond the usual few, with 9 and then 10 arguments
 	{"argvars", "{\\9}(1, 2, 3, 4, 5, 6, 7, 8, 9).p\n{[\\9, \\10]}(1, 2, 3, 4, 5, 6, 7, 8, 9, 10).p\n{|a, b, c, d, e, f, g, h, i, j, k| [i, k, \\11]}(1, 2, 3, 4, 5, 6, 7, 8, 9, 10, 11).p\n", ""},
 	// output through props that are themselves written in Pangaea (native/Obj.pangaea)
